@@ -35,7 +35,7 @@ func stateLetter(s string) byte {
 func init() {
 	Register(&Prop{
 		ID: "C14",
-		Rule: "sc: ServeConn on a scripted connection: per-iteration scripts (silent / served / served+close / malformed / hijack / partial head) with ReduceMemoryUsage on/off, EOF or timeout at starvation, each request in its own read or all pipelined in one read; " +
+		Rule: "sc: ServeConn on a scripted connection: per-iteration scripts (silent / served / served+close / malformed / hijack / partial head) with ReduceMemoryUsage on/off, EOF or timeout at starvation, each request in its own read or all pipelined in one read, with and without MaxConnsPerIP (every hook call of a connection must carry the same net.Conn value); " +
 			"serve: Server.Serve over an in-memory listener with 1..3 connections (some silent, some sending requests, Concurrency 1 to force pool rejection); monitor: the hook word is in " +
 			"New(Active(Idle Active)*Idle?)?(Closed|Hijacked) and every Active is preceded by the arrival of at least one new byte; non-trivial = at least one request is sent; distinct = distinct input",
 		Parallel: true,
@@ -102,10 +102,12 @@ func init() {
 				var word []byte
 				note := ""
 				actives := 0
+				connIDs := map[string]bool{}
 				for _, e := range res.Trace.Events {
 					if e.Kind != "state" {
 						continue
 					}
+					connIDs[string(e.B)] = true
 					l := stateLetter(e.S)
 					word = append(word, l)
 					if l == 'A' {
@@ -130,6 +132,13 @@ func init() {
 						}
 						if note != "" {
 							return Verdict{VSpec, "active-before-any-byte", desc + ": " + note}
+						}
+						if len(connIDs) > 1 {
+							ids := []string{}
+							for id := range connIDs {
+								ids = append(ids, id)
+							}
+							return Verdict{VSpec, "connstate-different-conn-values", fmt.Sprintf("%s: the hook calls of ONE connection were made with %d different net.Conn values %v, so a per-connection history sees neither StateNew first nor a final state for each of them", desc, len(ids), ids)}
 						}
 						if len(f) == 2 && f[0] != impl {
 							return Verdict{VCorr, "connstates", desc + "; model " + f[0]}
@@ -240,7 +249,7 @@ func init() {
 			if tier == "thorough" {
 				n = 30000
 			}
-			cfgs := []string{"", "rm=1", "eof=timeout", "rm=1,eof=timeout", "khj=1", "nka=1"}
+			cfgs := []string{"", "rm=1", "eof=timeout", "rm=1,eof=timeout", "khj=1", "nka=1", "mpi=2", "mpi=1,rm=1"}
 			for i := 0; i < n; i++ {
 				var sc []byte
 				for j, m := 0, r.Intn(4); j < m; j++ {
